@@ -50,7 +50,7 @@ var c14Patterns = []string{
 	"h.com/x(y", "h.com", "h.com/x/{p}/y", "h.com/x/", "a-b.h.com/x", "h.com/x$y", "h.com/x[y]",
 }
 
-var c14Methods = []string{"GET", "POST", "PUT", "DELETE", "PATCH", "HEAD", "OPTIONS"}
+var c14Methods = []string{"GET", "POST", "PUT", "DELETE", "PATCH", "HEAD", "OPTIONS", "TRACE", "CONNECT", "PURGE"} // PURGE: an extension method
 
 // c14Request builds a request URL whose host labels and path segments are either literals of the
 // configured pattern or arbitrary strings.
